@@ -25,3 +25,7 @@ pub(crate) fn version(bytes: &[u8]) -> HpoResult<Bytes> {
         Ok(Bytes::new(bytes, super::BinaryVersion::V1))
     }
 }
+
+#[cfg(kani)]
+#[path = "/verif/kani/binary_ontology.rs"]
+mod verif_kani;
